@@ -230,17 +230,37 @@ var (
 
 // vJWTParse models jwt.Parse by its contract: the key function is asked for the
 // key given the token's alg; the token is valid iff the key function succeeds,
-// the signature verifies under that key and the claims (exp, nbf) are valid.
+// the signature verifies under that key and the claims (exp, nbf, iat) are valid.
+// As the real parser does, a failure is reported as a *jwt.ValidationError whose
+// bit field names EVERY reason that applies (signature and any subset of the
+// claim checks), so the caller cannot conclude anything from a single bit.
 func vJWTParse(tokenString string, keyFunc jwt.Keyfunc) (*jwt.Token, error) {
 	vParsedToken = tokenString
 	tok := &jwt.Token{Raw: tokenString, Method: &vMethod{vTokenAlg}}
 	key, err := keyFunc(tok)
 	if err != nil {
-		return tok, err
+		return tok, &jwt.ValidationError{Inner: err, Errors: jwt.ValidationErrorUnverifiable}
 	}
 	vKeyUsed, _ = key.([]byte)
-	if !vSigValid || !vClaimsValid {
-		return tok, errors.New("token invalid")
+	var bits uint32
+	if !vClaimsValid {
+		// a non-empty subset of the claim failures
+		if verifBool("claims.expired") {
+			bits |= jwt.ValidationErrorExpired
+		}
+		if verifBool("claims.issuedInTheFuture") {
+			bits |= jwt.ValidationErrorIssuedAt
+		}
+		if verifBool("claims.notValidYet") {
+			bits |= jwt.ValidationErrorNotValidYet
+		}
+		verifAssume(bits != 0)
+	}
+	if !vSigValid {
+		bits |= jwt.ValidationErrorSignatureInvalid
+	}
+	if bits != 0 {
+		return tok, &jwt.ValidationError{Inner: errors.New("token invalid"), Errors: bits}
 	}
 	tok.Valid = true
 	return tok, nil
